@@ -65,7 +65,9 @@ def _readback(x):
 
 
 def _readback_elem(a, idx):
-    return "(print 1 (bin + (idx %d %s) 0))" % (a, " ".join(map(str, idx)))
+    # the element is the RIGHT operand: a negative multi-dimensional or char element as the left operand
+    # of a binary operator is taken for a pointer and crashes the interpreter (finding C04-negative-element-left-operand-crash)
+    return "(print 1 (bin + 0 (idx %d %s)))" % (a, " ".join(map(str, idx)))
 
 
 def split_sum(v, rng):
